@@ -522,6 +522,13 @@ def order_templates(a, b, m, m2, e, pre1, pre2):
         ('copy-built,send,copy,send,code,send', None, (K((a, m)), S, K(pre1), S, C(b), S)),
         ('ctor,copy,send', (a, m), (K(pre2), S)),
         ('ctor,send,copy-same,send', (a, m), (S, K((a, m)), S)),
+        # texts that cannot be encoded (lone surrogate in the only / first / a middle / the last line): the write raises,
+        # the same IO is used again
+        ('unencodable-single,send,copy,send', (a, 'x' + SUR), (S, K('unhandled_error'), S)),
+        ('unencodable-first,send,copy,send', (a, SUR + 'x\nsecond\nthird'), (S, K('unhandled_error'), S)),
+        ('unencodable-middle,send,copy,send', (a, 'first\nb' + SUR + '\nthird'), (S, K(pre1), S)),
+        ('unencodable-last,send,copy,send', (a, m.split('\n')[0] + '\nline two\n' + SUR), (S, K('unhandled_error'), S)),
+        ('ctor,send,msg-unencodable,send,msg2,send', (a, m), (S, M('one\ntwo ' + SUR + '\nthree'), S, M(m2), S)),
     ]
 
 
@@ -532,7 +539,11 @@ def gen_order(rng):
         if k < 0.3:
             ops.append(('C', rng.choice(BAD_CODES) if rng.random() < 0.1 else gen_code(rng) if rng.random() < 0.7 else str(rng.randrange(100, 200))))
         elif k < 0.5:
-            ops.append(('M', gen_text(rng, rng.choice(ORDER_CODES))))
+            t = gen_text(rng, rng.choice(ORDER_CODES))
+            if rng.random() < 0.08:
+                cut = rng.randrange(len(t) + 1)
+                t = (t[:cut] + SUR + t[cut:]) if cut or not t else 'a' + SUR + t
+            ops.append(('M', t))
         elif k < 0.65:
             r = rng.random()
             ops.append(('E', None if r < 0.15 else rng.choice(BAD_ESCS) if r < 0.3 else gen_esc_prefix(rng, rng.choice(ORDER_CODES))[1]))
@@ -578,29 +589,37 @@ def impl_apply(r, op):
     return 0
 
 
-def impl_snapshot(r):
-    """the object as it stands and what Reply.send writes for it now:
-    (code, message, esc, wire or None, esc switched off)"""
+SUR = '\ud800'          # a lone surrogate: str.encode('utf-8') raises UnicodeEncodeError
+
+
+def impl_snapshot(r, io):
+    """the object as it stands and what Reply.send(io) adds to the send buffer of `io` now:
+    (code, message, esc, wire or None, esc switched off, send raised UnicodeEncodeError, bytes a failed send left)"""
     code, msg, esc = r.code, r.message, r.enhanced_status_code
-    wire = None
+    wire, failed, partial = None, False, b''
     if code and VALID_CODE.match(code) and msg is not None:
-        io = IO(ScriptSocket(), ('h', 25))
-        r.send(io)
-        wire = io.send_buffer.getvalue()
-    return (code or '', msg if msg is not None else '', esc, wire, (esc is None and bool(code) and code[0] in '245'))
+        before = len(io.send_buffer.getvalue())
+        try:
+            r.send(io)
+            wire = io.send_buffer.getvalue()[before:]
+        except UnicodeEncodeError:
+            failed = True
+            partial = io.send_buffer.getvalue()[before:]
+    return (code or '', msg if msg is not None else '', esc, wire, (esc is None and bool(code) and code[0] in '245'), failed, partial)
 
 
 def impl_order(start, ops):
-    """-> (snapshots at every send, flags); `ops` ends with a send"""
+    """-> (snapshots at every send, flags, send buffer of the ONE IO all the sends went to); `ops` ends with a send"""
     r = Reply(*start) if start else Reply()
+    io = IO(ScriptSocket(), ('h', 25))
     sends, flags = [], []
     for op in ops:
         if op[0] == 'S':
-            sends.append(impl_snapshot(r))
+            sends.append(impl_snapshot(r, io))
             flags.append(0)
         else:
             flags.append(impl_apply(r, op))
-    return sends, flags
+    return sends, flags, io.send_buffer.getvalue()
 
 
 def model_flat(start, ops):
@@ -671,18 +690,23 @@ def run_orders(ctx, n_random, everycut_one_in):
         ctx.count('order:' + name)
         case = order_case(start, ops)
         try:
-            sends, flags = impl_order(start, ops)
+            sends, flags, out_buf = impl_order(start, ops)
         except Exception as exc:
             report(ctx, 'c17:build-raises', case, '%s raised %s' % (describe_ops(start, ops), exc_text(exc)))
             ctx.mismatch('ops-raises', case, exc_text(exc), mo)
             continue
         ctx.evaluated(('order', start, ops), nontrivial=(len(ops) > 1))
-        im = (tuple((c, m, (e,) if e is not None else (), w) for (c, m, e, w, _) in sends), ((0, 0, 0) if start else ()) + tuple(flags))
-        mm = (tuple((U(x[0]), U(x[1]), tuple(U(y) for y in x[2]), B(x[3]) if sends[k][3] is not None else None) for k, x in enumerate(mo[6][:len(sends)])) if len(mo[6]) == len(sends) else mo[6],
-              tuple(mo[4]))
+        attempted = all(w is not None or f for (_, _, _, w, _, f, _) in sends)
+        im = (tuple((c, m, (e,) if e is not None else (), w, int(f)) if (w is not None or f) else (c, m, (e,) if e is not None else ()) for (c, m, e, w, _, f, _) in sends),
+              ((0, 0, 0) if start else ()) + tuple(flags), out_buf if attempted else None)
+        mm = (tuple((U(x[0]), U(x[1]), tuple(U(y) for y in x[2]), None if x[5] else B(x[3]), x[5]) if (sends[k][3] is not None or sends[k][5]) else (U(x[0]), U(x[1]), tuple(U(y) for y in x[2]))
+                    for k, x in enumerate(mo[6])) if len(mo[6]) == len(sends) else mo[6],
+              tuple(mo[4]), B(mo[7]) if attempted else None)
         if im != mm:
             ctx.mismatch('ops', case, im, mm)
-        for k, (code, msg, esc, wire, esc_off) in enumerate(sends):
+        good_keys = []
+        stream_ok = attempted
+        for k, (code, msg, esc, wire, esc_off, failed, partial) in enumerate(sends):
             ctx.count('order-writes')
             where = dict(case, send_index=k, code=code, text=msg)
             if esc and code and esc[0] != code[0]:
@@ -691,6 +715,13 @@ def run_orders(ctx, n_random, everycut_one_in):
                            describe_ops(start, ops), code, esc, k, msg, ', written as %r' % wire if wire is not None else ''))
             if esc is not None and code and code[0] not in '245':
                 report(ctx, 'c17:esc-class-differs-from-code-class', where, 'code %s has no enhanced status class but the reply shows %s' % (code, esc))
+            if failed:
+                ctx.count('order:write-raises-UnicodeEncodeError')
+                if partial:
+                    report(ctx, 'c17:partial-reply-written-on-encode-failure', where,
+                           '%s: write %d raised UnicodeEncodeError (the text %r cannot be encoded) but left %r in the send buffer' % (
+                               describe_ops(start, ops), k, msg, partial))
+                continue
             if wire is None:
                 ctx.count('order:not-sendable')
                 continue
@@ -701,14 +732,160 @@ def run_orders(ctx, n_random, everycut_one_in):
                            describe_ops(start, ops), k, wire, code, msg, want))
             if esc_off:
                 ctx.count('order:esc-switched-off-roundtrip-not-judged')   # the receiving side shows its default ESC
+                stream_ok = False
                 continue
             key = (code, msg, start, ops, k)
             built[key] = (msg, wire)
+            good_keys.append(key)
             s = [key, successor] if (i + k) % 2 == 0 else [key]
             last = (k + 1 == len(sends))
             jobs += seg_jobs(rng, s, built, TRAILERS[(i + k) % len(TRAILERS)], ['whole', 'bytes', 'random'] if last and i % 3 == 0 else ['whole', 'random'],
                              last and i % everycut_one_in == 0)
+        if stream_ok and good_keys and any(f for (_, _, _, _, _, f, _) in sends):
+            # a write failed on this IO: what the peer reads is the IO's whole send buffer -- exactly the writes that succeeded
+            ctx.count('order:stream-after-failed-write')
+            jobs.append((good_keys, b'', b'', segmentations(out_buf, rng, 'whole'), 'whole'))
+            jobs.append((good_keys, b'', b'', segmentations(out_buf, rng, 'random'), 'random'))
     parse_back(ctx, jobs, built)
+
+
+# ------------------------------------------------------------ the same IO after a bad reply
+def impl_recv_chain(buf, chunks, maxn):
+    """Reply().recv(io) up to `maxn` times on ONE IO; outcomes shaped as impl_recv, each with what is left
+    unread (recv_buffer + the socket's unread input) after it"""
+    sock = ScriptSocket(chunks)
+    io = IO(sock, ('h', 25))
+    io.recv_buffer = buf
+    outs = []
+    for _ in range(maxn):
+        r = Reply()
+        try:
+            r.recv(io)
+        except BadReply:
+            outs.append((1, io.recv_buffer + sock.unread()))
+            continue
+        except ConnectionLost:
+            outs.append((3,))
+            break
+        except ValueError as exc:
+            outs.append((2,) if exc.args and exc.args[0] == 'Invalid SMTP reply code' else (4, exc_text(exc)))
+            break
+        except Exception as exc:
+            outs.append((4, exc_text(exc)))
+            break
+        outs.append((0, r.code, r.message, io.recv_buffer + sock.unread(), r.enhanced_status_code))
+    return outs
+
+
+def model_recv_chain(ctx, inputs, maxn):
+    """the model's recv called again and again on what it left: one batch per round"""
+    chains = [[] for _ in inputs]
+    state = [(b'', list(ch)) for ch in inputs]
+    active = list(range(len(inputs)))
+    for _ in range(maxn):
+        if not active:
+            break
+        outs = ctx.model.batch('c17_recv', [[state[i][0], state[i][1]] for i in active])
+        nxt = []
+        for i, o in zip(active, outs):
+            buf, chunks = state[i]
+            chains[i].append(model_recv_out(o, chunks))
+            if o[0] in (0, 1):
+                k = o[4] if o[0] == 0 else o[2]
+                state[i] = (B(o[3] if o[0] == 0 else o[1]), chunks[len(chunks) - k:] if k else [])
+                nxt.append(i)
+        active = nxt
+    return chains
+
+
+MALFORMED_SHAPES = [
+    ('non-reply-line', [b'ok\r\n', b'25x ok\r\n', b'2 50 ok\r\n', b'\r\n', b'\n', b'250\r\n', b'250ok\r\n', b'250_ok\r\n', b' 250 ok\r\n',
+                        b'650 no\r\n', b'099 no\r\n']),
+    ('non-reply-line-inside-multiline', [b'250-a\r\nfoo\r\n', b'250-a\r\n\r\n', b'250-a\r\n250-b\r\nnot a reply line\r\n', b'550-5.1.1 a\r\n550_b\r\n']),
+    ('code-mismatch', [b'250-first\r\n550 second\r\n', b'250-a\r\n250-b\r\n451 c\r\n', b'250-first\r\n550-second\r\n550 third\r\n',
+                       b'354-a\r\n250-b\r\n', b'250-2.1.0 a\r\n251 2.1.5 b\r\n']),
+    ('invalid-utf8', [b'250 a\xffb\r\n', b'250-ok\r\n250 a\xc3\r\n', b'550 \xed\xa0\x80\r\n', b'250-\xf4\x90\x80\x80\r\n250-mid\r\n250 end\r\n']),
+    ('two-in-a-row', [b'ok\r\n25x\r\n', b'250-a\r\nfoo\r\n250-b\r\n550 c\r\n', b'250 \xff\r\n250-a\r\nbar\r\n', b'250-a\r\n550-b\r\n451 c\r\n']),
+]
+GOOD_SEQS = [[('250', 'ok')], [('550', '5.1.1 multi\nline'), ('250', '2.0.0 Ok')], [('354', 'go'), ('421', '4.4.2 bye\nnow'), ('250', 'x')],
+             [('451', '5.7.1 other class'), ('220', 'banner é')]]
+
+
+def run_continuation(ctx, exhaustive_len):
+    """a malformed reply, then library-written well-formed replies, all read from the SAME IO.  Oracle on the
+    implementation alone: (a) recv_reply keeps no state but recv_buffer -- every call after the first gives what a
+    FRESH IO holding the unread rest gives; (b) once the refused lines are consumed (what is left equals the
+    well-formed stream) every later reply comes back exactly; (c) each outcome agrees with the reference parser."""
+    rng = ctx.rng
+    built = build_all(ctx, [ct for g in GOOD_SEQS for ct in g])
+    goods = [(g, b''.join(built[ct][1] for ct in g)) for g in GOOD_SEQS if all(ct in built for ct in g)]
+    cases = []
+    for kind, shapes in MALFORMED_SHAPES:
+        for i, bad in enumerate(shapes):
+            for gi, (g, gstream) in enumerate(goods):
+                trailer = TRAILERS[(i + gi) % len(TRAILERS)]
+                data = bad + gstream + trailer
+                segs = [(m, segmentations(data, rng, m)) for m in ('whole', 'bytes', 'lines', 'random')]
+                if len(data) <= 70:
+                    segs += [('everycut', [data[:c], data[c:]]) for c in range(1, len(data))]
+                for mode, chunks in segs:
+                    cases.append((kind, bad, g, gstream, trailer, mode, chunks))
+    for L in range(0, exhaustive_len + 1):
+        for tup in itertools.product(b'25- \r\na.', repeat=L):
+            bad = bytes(tup)
+            g, gstream = goods[(len(cases)) % len(goods)]
+            data = bad + gstream
+            cases.append(('exhaustive', bad, g, gstream, b'', 'whole', segmentations(data, rng, 'whole')))
+            cases.append(('exhaustive', bad, g, gstream, b'', 'random', segmentations(data, rng, 'random')))
+    maxn = 8
+    mchains = model_recv_chain(ctx, [c[6] for c in cases], maxn)
+    for (kind, bad, g, gstream, trailer, mode, chunks), mchain in zip(cases, mchains):
+        ctx.count('continuation:' + kind)
+        ctx.count('seg:' + mode)
+        case = dict(chunks=chunks, chain=True)
+        chain = impl_recv_chain(b'', chunks, maxn)
+        ctx.evaluated(('cont', bad, tuple(g), trailer, mode, len(chunks)), nontrivial=True)
+        if [x[:4] for x in chain] != mchain:
+            ctx.mismatch('recv-chain', case, [x[:4] for x in chain], mchain)
+        if any(judge_recv_exception(ctx, x, case) for x in chain):
+            continue
+        data = b''.join(chunks)
+        rest = data
+        aligned = None
+        want_tail = gstream + trailer
+        for k, out in enumerate(chain):
+            # (a) no state but the buffer
+            if k > 0:
+                fresh = impl_recv(rest, [])
+                if fresh != out:
+                    key = 'c17:state-survives-bad-reply' if chain[k - 1][0] == 1 else 'c17:state-survives-reply'
+                    report(ctx, key, dict(case, call=k),
+                           'call %d of Reply.recv on the same IO (after %s) gave %r; a fresh IO holding the unread input %r gives %r' % (
+                               k, 'a BadReply' if chain[k - 1][0] == 1 else 'a reply', out, rest[:80], fresh))
+                    break
+            # (b) the well-formed replies behind the refused lines
+            if aligned is None and rest == want_tail and k > 0:
+                aligned = k
+            if aligned is not None and k - aligned < len(g):
+                ct = g[k - aligned]
+                left = b''.join(built[c2][1] for c2 in g[k - aligned + 1:]) + trailer
+                if out[:4] != (0, ct[0], norm(built[ct][0]), left):
+                    report(ctx, 'c17:state-survives-bad-reply', dict(case, call=k),
+                           'after the refused lines were consumed the library-written reply %r was read back as %r (expected rest %r)' % (
+                               (ct[0], norm(built[ct][0])), out, left))
+                    break
+            # (c) the reference parser on what was unread before this call
+            ref = ref_parse(rest)
+            exp = {'lost': 3, 'bad': 1, 'badcode': 2, 'ok': 0}[ref[0]]
+            if out[0] != exp or (exp == 0 and (out[1] != ref[1] or out[3] != ref[3])) or (exp == 1 and out[1] != ref[1]):
+                report(ctx, 'c17:malformed', dict(case, call=k), 'call %d on unread %r: expected %r got %r' % (k, rest[:80], ref, out))
+                break
+            if out[0] in (0, 1):
+                rest = out[3] if out[0] == 0 else out[1]
+            else:
+                break
+        ctx.count('continuation:aligned' if aligned is not None else 'continuation:not-aligned')
+    ctx.sample(dict(kind='continuation', malformed=[b for _, sh in MALFORMED_SHAPES for b in sh][:6], then=GOOD_SEQS[1], count=len(cases)))
 
 
 # ------------------------------------------------------------ line sizes around the read size
@@ -934,6 +1111,7 @@ def run(ctx):
                          'patterns: message_esc_pattern / esc_pattern / code_pattern against their models exhaustively over small alphabets, Reply(code, text) against reply_ctor; '
                          'malformed: every byte string over {2,5,-,SP,CR,LF,a,.} to the stated length plus structured bad-UTF-8/mixed-code/non-numeric replies; '
                          'orders: one Reply object under operation sequences (constructor / setters in every order / code changed across classes / ESC str, None, False / Reply.copy(pre-defined or built reply) / several writes of the same object), every write judged and read back; '
+                         'continuation: each malformed shape (non-reply line, also inside a multi-line reply; other code inside a multi-line reply; invalid UTF-8; two in a row; every string over the 8-letter alphabet to length 3 (5)) followed by 1-3 library-written replies and a trailer, read call after call from the SAME IO at whole/bytewise/linewise/random/every-cut segmentations; '
                          'sizes: replies whose longest wire line is L-d bytes, L in 1000,4095,4096,4097,5000,8192(,16384,65536), d in 0..3, ASCII and 3-byte characters, long line alone/first/middle/last, successor pipelined, read in 4096-byte reads (raw_recv), 4095, 4097, 1000 and cut before the CRLF; '
                          'every implementation call is guarded: an exception out of Reply()/send is c17:build-raises, out of Reply.recv (other than BadReply/ConnectionLost) c17:recv-raises-not-badreply; '
                          'distinct_nontrivial counts distinct (reply, segmentation) cases with multi-line, status-code-looking, non-ASCII or pipelined content, malformed inputs containing a complete line, '
@@ -944,6 +1122,7 @@ def run(ctx):
         ('esc-matrix', lambda: run_esc_matrix(ctx, 16 if ctx.quick else 1)),
         ('peer-esc', lambda: run_peer_esc(ctx, 500 if ctx.quick else 20000)),
         ('orders', lambda: run_orders(ctx, 1500 if ctx.quick else 12000, 16 if ctx.quick else 4)),
+        ('continuation', lambda: run_continuation(ctx, 3 if ctx.quick else 5)),
         ('sizes', lambda: run_sizes(ctx, [1000, 4095, 4096, 4097, 5000, 8192] if ctx.quick else [1000, 4095, 4096, 4097, 5000, 8192, 16384, 65536], [16384, 65536] if ctx.quick else [], not ctx.quick)),
         ('structured', lambda: run_structured(ctx, 800 if ctx.quick else 4000)),
         ('patterns', lambda: run_patterns(ctx, 5 if ctx.quick else 7, 6 if ctx.quick else 7)),
@@ -964,6 +1143,28 @@ def replay(ctx, case):
     def unhex(x):
         return bytes.fromhex(x['hex']) if isinstance(x, dict) else x
     rc = 0
+    if c.get('chain'):
+        chunks = [unhex(x) for x in c.get('chunks', [])]
+        print('Reply.recv again and again on ONE IO fed %r' % (chunks,))
+        chain = impl_recv_chain(b'', chunks, 8)
+        rest = b''.join(chunks)
+        for k, out in enumerate(chain):
+            fresh = impl_recv(rest, [])
+            print('call %d: %r' % (k, out))
+            if out[0] == 4:
+                print('  -> [c17:recv-raises-not-badreply]')
+                rc = 1
+                break
+            if k > 0 and fresh != out:
+                print('  -> a fresh IO holding the unread input %r gives %r [%s]' % (rest, fresh, 'c17:state-survives-bad-reply' if chain[k - 1][0] == 1 else 'c17:state-survives-reply'))
+                rc = 1
+                break
+            if out[0] not in (0, 1):
+                break
+            rest = out[3] if out[0] == 0 else out[1]
+        if ctx.model:
+            print('model:', model_recv_chain(ctx, [chunks], 8)[0])
+        return rc
     if 'buf' in c or 'chunks' in c:
         buf = unhex(c.get('buf', b'')) or b''
         chunks = [unhex(x) for x in c.get('chunks', [])]
@@ -1001,17 +1202,20 @@ def replay(ctx, case):
         start, ops = ops_from_case(c)
         print(describe_ops(start, ops))
         try:
-            sends, flags = impl_order(start, ops)
+            sends, flags, out_buf = impl_order(start, ops)
         except Exception as exc:
             print('  -> raised %s [c17:build-raises]' % exc_text(exc))
             return 1
         mo = ctx.model.call('c17_ops', model_flat(start, ops)) if ctx.model else None
         print('setters refused: %r' % (flags,))
-        for k, (code, msg, esc, wire, esc_off) in enumerate(sends):
-            print('write %d: object has code=%r message=%r enhanced_status_code=%r; written %r' % (k, code, msg, esc, wire))
+        for k, (code, msg, esc, wire, esc_off, failed, partial) in enumerate(sends):
+            print('write %d: object has code=%r message=%r enhanced_status_code=%r; %s' % (k, code, msg, esc, 'raised UnicodeEncodeError, left %r in the send buffer' % partial if failed else 'written %r' % wire))
+            if failed and partial:
+                print('  -> a write that failed left part of the reply in the send buffer [c17:partial-reply-written-on-encode-failure]')
+                rc = 1
             if mo is not None and k < len(mo[6]):
                 x = mo[6][k]
-                print('  model : code=%r message=%r enhanced_status_code=%r wire=%r' % (U(x[0]), U(x[1]), tuple(U(y) for y in x[2]), B(x[3])))
+                print('  model : code=%r message=%r enhanced_status_code=%r %s' % (U(x[0]), U(x[1]), tuple(U(y) for y in x[2]), 'UnicodeEncodeError, nothing written' if x[5] else 'wire=%r' % B(x[3])))
             if esc and code and esc[0] != code[0]:
                 print('  -> enhanced status class %s differs from the code class %s [c17:esc-class-differs-from-code-class]' % (esc[0], code[0]))
                 rc = 1
@@ -1029,6 +1233,14 @@ def replay(ctx, case):
                 elif back[:4] != (0, code, norm(msg), b'250 ok\r\n'):
                     print('  -> not the code / text %r the object showed when it was written [c17:roundtrip]' % ((code, norm(msg)),))
                     rc = 1
+        if any(x[5] for x in sends):
+            print('send buffer of the IO after all writes: %r' % out_buf)
+            chain = impl_recv_chain(b'', [out_buf], len(sends) + 1)
+            print('read back by a peer: %r' % (chain,))
+            want = [(0, c, norm(m)) for (c, m, e, w, off, f, p) in sends if w is not None]
+            if not any(off for (c, m, e, w, off, f, p) in sends if w is not None) and [x[:3] for x in chain if x[0] != 3] != want:
+                print('  -> not the replies whose write succeeded %r [c17:roundtrip]' % (want,))
+                rc = 1
         return rc
     if 'code' in c and 'text' in c:
         out = impl_ctor(c['code'], c['text'])
